@@ -228,6 +228,90 @@ def must_for(styles, kick, at, copy=True):
     return must
 
 
+# ----------------------------------------------------------------------------------------------------------
+# real threads at lock grain (spec/Publisher/PublisherConc.tla, harness/publisher_conc_replay.cpp)
+# ----------------------------------------------------------------------------------------------------------
+CONC_INVARIANTS = INVARIANTS + " ThreadsOK NobodyForgotten"
+
+
+def conc_proj(st):
+    """expected projection of a PublisherConc state: queue state as in proj(), what every subscriber's caller has
+    seen so far, and the pending operation of every thread after the code without visible effect has run"""
+    regs = [{"pos": r["pos"], "used": r["used"], "kicked": r["kicked"], "awt": r["awt"]} for r in st["regs"]]
+    subs, pend = {}, {}
+    ppc, pco, pdel = st["ppc"], st["pco"], st["pdel"]
+    pend["P"] = {"idle": "idle", "wake": "unlocked", "co": "lock", "tail": "lock"}[ppc]
+    for i, pc in enumerate(st["pc"]):
+        s = i + 1
+        call = st["call"][i]
+        if call == "none":
+            pd = "idle"
+        elif call == "poll":
+            pd = "lock"
+        elif call == "block":
+            pd = "wait" if pc == "parked" else "lock"
+        else:   # a coroutine: parked -> its thread has returned; resumed by the publisher -> runs on the publisher thread
+            pd = "idle" if pc == "parked" or pco == s or pdel == s else "lock"
+        pend[str(s)] = pd
+        if pc == "unborn":
+            continue
+        recv = st["recv"][i]
+        eos = pc == "eos"
+        if pdel == s:   # get_value done by the publisher thread, the coroutine has not been let run on yet
+            recv = recv[:-1] if pc == "idle" else recv
+            eos = False
+        subs[str(s)] = {"hnd": st["hnd"][i], "mode": st["mode"][i], "recv": recv, "res": st["res"][i], "eos": eos}
+    return {"pos": st["pos"], "q": st["q"], "closed": st["closed"], "pubAlive": st["pubAlive"],
+            "nextFree": st["nextFree"], "regs": regs, "subs": subs, "pend": pend}
+
+
+def conc_consts(nsubs, mn, mx, modes, cstyles, pub, batch, join, kick, at=(), copybusy=True):
+    c = consts(nsubs, mn, mx, modes, styles='{"split"}', pub=pub, batch=batch, join=join, kick=kick, at=list(at),
+               copybusy=copybusy, serial=False)
+    c["CStyles"] = tla_set(cstyles)
+    return c
+
+
+def conc_replay(ctx, tag="conc", max_paths_quick=1200):
+    """publisher thread against subscriber threads on REAL threads under the controlled scheduler at lock grain (the
+    queue's std::mutex is virtual): every critical section is one step, the wake-up loop after the unlock a step of its
+    own; TLC checks the C16 invariants on the thread-structured model, every step of the replay compares the queue's
+    internal state, every thread's pending operation and what every subscriber received, and every step that is not a
+    critical section must leave the mutex-guarded state untouched.  Also used by C03 (lock discipline)."""
+    rpc = vlib.compile_harness(vlib.VERIF + "/harness/publisher_conc_replay.cpp", "publisher_conc_replay",
+                               extra_flags=["-rdynamic"], sanitize=False)
+    if ctx.quick:
+        configs = [("a", conc_consts(2, 1, 2, ["all"], ["block", "poll", "coro"], 1, 1, 2, 0)),
+                   ("b", conc_consts(1, 1, U, ["all", "recent"], ["block", "poll", "coro"], 2, 2, 2, 1))]
+    else:
+        configs = [("a", conc_consts(2, 1, 2, ["all"], ["block", "poll", "coro"], 2, 1, 2, 0)),
+                   ("b", conc_consts(2, 1, 1, ["recent"], ["block", "coro"], 2, 2, 2, 1, copybusy=False)),
+                   ("c", conc_consts(1, 2, 2, ["behind"], ["block", "poll", "coro"], 4, 3, 2, 1)),
+                   ("d", conc_consts(1, 1, U, ["all", "recent"], ["block", "poll", "coro"], 3, 2, 2, 1)),
+                   ("e", conc_consts(3, 1, 2, ["all"], ["block", "coro"], 1, 1, 3, 0, copybusy=False))]
+    must = ["TJoinRecent", "TLeave", "TReady", "TSubscribe", "TFetch", "PPush", "PClose", "PWake", "PFetch", "PTail"]
+    for (name, c) in configs:
+        n = c["NSubs"]
+        threads = ["P"] + [str(i) for i in range(1, n + 1)]
+
+        def hdr(k, st0, c=c, threads=threads):
+            return {"min": c["MinLen"], "max": c["MaxLen"], "threads": threads}
+        m = list(must)
+        if "poll" in c["CStyles"]:
+            m += ["TPollReady", "TPollFetch"]
+        if c["MaxKick"]:
+            m.append("PKick")
+        if n > 1:
+            m.append("TJoinCopy")
+        with fast_cover():
+            graph_replay(ctx, "Publisher", "PublisherConc", "PublisherConc.cfg", "%s_%s" % (tag, name), rpc, conc_proj,
+                         header_fn=hdr, must_take=m, constants=c, max_paths=max_paths_quick if ctx.quick else None,
+                         tlc_kw={"workers": 4}, replay_timeout=180 if ctx.quick else 1800)
+    ctx.assume("publisher on real threads: lock grain (std::mutex virtual, atomic operations are not scheduling points; the "
+               "awaiter/sync_awaiter protocol itself is decided by C01/C02); one publisher thread, one thread per subscriber; a "
+               "parked subscriber is copied by another thread only while it is still registered")
+
+
 def run(ctx):
     rp = vlib.compile_harness(vlib.VERIF + "/harness/publisher_replay.cpp", "publisher_replay", sanitize=not ctx.quick)
     t0 = time.time()
